@@ -3,5 +3,6 @@ CONSTANTS
   B3 = {0, 1, 2, 3, 4, 8, 15, 16, 32, 63, 64, 65, 97, 127, 128, 129, 191, 192, 240, 252, 254, 255}
   MaxLen = 4
   Emit = TRUE
-INVARIANTS EncPrefix DecPrefix Canonical RoundTrip SextetsAgree AlphaBijective EmitCase EmitCorruptions
+  CorruptLen = 3
+INVARIANTS EncPrefix DecPrefix Canonical RoundTrip SextetsAgree AlphaBijective TablesAgree EmitCase EmitCorruptions
 CHECK_DEADLOCK FALSE
